@@ -227,3 +227,10 @@ class LimitEmptyLines(LinePostProcessor):
             return ("", "")
         else:
             return line_and_lineend
+
+    def reset(self) -> None:
+        """
+        Forget the empty lines counted so far. Invoked by the generators before each file so that the lines at the
+        start of a file do not depend on how the previously generated file ended.
+        """
+        self._empty_line_count = 0
